@@ -25,7 +25,8 @@ TECHNIQUE = ('generated workbooks written as xlsx with consistent stored '
              'perturbed one')
 LEVEL_TEXT = ('Fault enumeration: for every sampled workbook every formula '
               'cell is perturbed in turn (number far beyond / far below the '
-              'tolerance, other text, negated logical, other error) under '
+              'tolerance, 2x / 0.5x the tolerance, other text, negated logical, '
+              'other error) under '
               'three tolerance settings and three choices of outputs.')
 LEVEL_NOTE = ('Trusts the xlsx writer in vlib/xl.py (self-checked: the '
               'unperturbed file must validate to {}) and dep_graph '
@@ -39,6 +40,7 @@ ASSUMPTIONS = ['formula cells whose consistent result is blank carry no '
 MIN_NONTRIVIAL = {'quick': 300, 'thorough': 6000}
 
 TOLS = [None, 1e-6, 1e-2]
+KINDS = ('big', 'small', 'neg', 'type', 'above', 'below')
 
 
 def perturb(value, kind, tol):
@@ -53,7 +55,21 @@ def perturb(value, kind, tol):
             return value + small, False
         if kind == 'type':
             return 'seven', True
+        if kind in ('above', 'below'):
+            # just outside / just inside the tolerance: 2x and 0.5x of the
+            # absolute tolerance if one is given, else of the documented
+            # relative 1e-5 (absolute 1e-8 around zero)
+            unit = tol if tol else (abs(value) * 1e-5 if value else 1e-8)
+            new = value + unit * (2 if kind == 'above' else 0.5)
+            actual = abs(new - value)           # after float rounding
+            if kind == 'above' and actual >= 1.5 * unit:
+                return new, True
+            if kind == 'below' and 0 < actual <= 0.75 * unit:
+                return new, False
+            return None, False
         return value - big, True
+    if kind in ('above', 'below'):
+        return None, False
     if k == 'text':
         return (value + 'x' if kind != 'type' else 12345), True
     if k == 'logical':
@@ -87,6 +103,9 @@ def check_case(rec, spec, p_idx, kind, tol_idx, out_mode, out_idx,
             return None
         P = storable[p_idx % len(storable)]
         new, must_report = perturb(values[P], kind, tol)
+        if new is None:
+            rec.label('excluded:perturbation-not-applicable')
+            return None
         probe = compile_spec(wbspec.build_spec(spec))
         for a in forms:
             models.safe_eval(probe, a)
@@ -224,7 +243,7 @@ def run_shard(shard, rec):
         n = len(spec['formulas'])
         # fault sites enumerated: every formula cell x perturbation kind
         for p_idx in range(n):
-            for kind in ('big', 'small', 'neg', 'type'):
+            for kind in KINDS:
                 res = check_case(rec, spec, p_idx, kind, tol_idx, out_mode,
                                  out_idx,
                                  unknown_idx if kind == 'big' else None)
@@ -241,7 +260,7 @@ def replay(case, rec):
     if isinstance(case, list):
         spec, tol_idx, out_mode, out_idx, unknown_idx = case
         for p_idx in range(len(spec['formulas'])):
-            for kind in ('big', 'small', 'neg', 'type'):
+            for kind in KINDS:
                 check_case(rec, spec, p_idx, kind, tol_idx, out_mode,
                            out_idx, unknown_idx if kind == 'big' else None)
         return
